@@ -20,14 +20,14 @@ type c12Algo struct {
 	name  string
 	algo  crypto.SigningAlgorithm
 	order *big.Int
-	cv    *ecCurve // nil for BLS
+	cv    *wecCurve // nil for BLS
 }
 
 func c12Algos() []c12Algo {
 	return []c12Algo{
 		{"BLS12381", crypto.BLSBLS12381, blsR, nil},
-		{"P256", crypto.ECDSAP256, ecCurveList[0].c.N, ecCurveList[0]},
-		{"secp256k1", crypto.ECDSASecp256k1, ecCurveList[1].c.N, ecCurveList[1]},
+		{"P256", crypto.ECDSAP256, wecCurveList[0].c.N, wecCurveList[0]},
+		{"secp256k1", crypto.ECDSASecp256k1, wecCurveList[1].c.N, wecCurveList[1]},
 	}
 }
 
@@ -104,11 +104,8 @@ func c12CheckPublic(g *gen.G, a c12Algo, sk crypto.PrivateKey, x *big.Int, origi
 		if !bytes.Equal(enc, want) {
 			g.Fatalf("BLS %s key %x: PublicKey().Encode() = %x, the oracle computes x·G2 = %x", origin, scalarBytes(x), enc, want)
 		}
-		if c := pk.EncodeCompressed(); !bytes.Equal(c, want) {
-			g.Fatalf("BLS %s key %x: PublicKey().EncodeCompressed() = %x, the oracle computes x·G2 = %x", origin, scalarBytes(x), c, want)
-		}
 	} else {
-		_, raw, comp := ecPub(a.cv, x)
+		_, raw, comp := wecPub(a.cv, x)
 		if !bytes.Equal(enc, raw) {
 			g.Fatalf("%s %s key %x: PublicKey().Encode() = %x, the oracle computes d·G = X‖Y = %x", a.name, origin, scalarBytes(x), enc, raw)
 		}
@@ -177,14 +174,14 @@ func TestC12_Seed(t *testing.T) {
 	gen.Run(t, "C12", func(g *gen.G) {
 		a := algos[g.Pick("algo", len(algos))]
 		var n int
-		switch g.Int("lenKind", 0, 6) {
-		case 0, 1, 2:
+		switch g.Int("lenKind", 0, 9) {
+		case 0, 1, 2, 3:
 			n = g.Int("len", 32, 64)
-		case 3:
+		case 4, 5, 6:
 			n = g.Int("lenLong", 65, 256)
-		case 4:
+		case 7:
 			n = []int{31, 32, 33, 255, 256, 257}[g.Pick("lenBoundary", 6)]
-		case 5:
+		case 8:
 			n = g.Int("lenShort", 0, 31)
 		default:
 			n = g.Int("lenHuge", 257, 300)
@@ -270,8 +267,8 @@ func TestC12_PublicKey(t *testing.T) {
 		var origin, how string
 		switch {
 		case a.cv != nil:
-			x, how = ecDrawScalar(g, "d", a.cv)
-			sk = ecDecodeSK(g, a.cv, x)
+			x, how = wecDrawScalar(g, "d", a.cv)
+			sk = wecDecodeSK(g, a.cv, x)
 			origin = "decoded"
 		case g.Chance("aggregated", 1, 3):
 			cnt := g.Int("aggN", 2, 3)
